@@ -37,6 +37,8 @@ type Program struct {
 	Contracts  []*Contract
 	// contracts of interface methods declared in /repo (assumed for every implementation)
 	IfaceContracts map[string]*Contract
+	// contracts of package-level function variables (assumed, not verified: higher-order)
+	VarContracts map[types.Object]*Contract
 	LoadErrors []string
 	RepoDir    string
 }
@@ -143,6 +145,19 @@ func LoadProgram(repoDir string) (*Program, error) {
 		fi, ok := p.Funcs[c.Key]
 		if !ok && p.bindIface(c) {
 			continue
+		}
+		if !ok {
+			name := c.Key[strings.LastIndex(c.Key, ".")+1:]
+			if v, isVar := c.Pkg.Types.Scope().Lookup(name).(*types.Var); isVar {
+				if _, isFn := v.Type().Underlying().(*types.Signature); isFn {
+					if p.VarContracts == nil {
+						p.VarContracts = map[types.Object]*Contract{}
+					}
+					p.VarContracts[v] = c
+					c.Iface = true
+					continue
+				}
+			}
 		}
 		if !ok {
 			c.BindErr = fmt.Sprintf("contract for %s: no such function in /repo", c.Key)
